@@ -223,6 +223,8 @@ def gen_source(program, header=True):
     if program.get("horizon") is not None:
         pa["horizon"] = program["horizon"]
     pre = []
+    if program.get("prelude"):
+        lines += list(program["prelude"])  # what happened in the interpreter before this problem was created
     kws = ", ".join(f"{k}={_val_src(v, pre)}" for k, v in pa.items())
     lines += pre
     lines.append(f"pb = ps.SchedulingProblem({kws})")
